@@ -1132,10 +1132,13 @@ class StrategyBase(Node):
             # aggregate same-named securities, like the positions above
             bidoffer = pd.DataFrame()
             for x in self.securities:
+                # the spread paid is cash (multiplier included); per unit
+                # of price it is paid / (quantity * multiplier)
+                paid = x.bidoffers_paid / x.multiplier
                 if x.name in bidoffer.columns:
-                    bidoffer[x.name] += x.bidoffers_paid
+                    bidoffer[x.name] += paid
                 else:
-                    bidoffer[x.name] = x.bidoffers_paid
+                    bidoffer[x.name] = paid
             prc += bidoffer.unstack() / trades
 
         res = pd.DataFrame({"price": prc, "quantity": trades}).dropna(subset=["quantity"])
